@@ -2,6 +2,8 @@
 
 package reassembly
 
+import "time"
+
 // Read-only accessors for the verification harness (build tag `verif` only).
 // They expose counters the lifecycle/leak-freedom property is stated about and
 // change no behaviour.
@@ -10,27 +12,46 @@ package reassembly
 // page cache and not yet returned.
 func (a *Assembler) VerifPagesUsed() int { return a.pc.used }
 
-// VerifHalfPages returns, for every half-connection of every connection in
-// the assembler's pool: the half's page counter, the length of its queue
-// (first..last) and the length of its saved list.
-func (a *Assembler) VerifHalfPages() (counters, queued, saved []int) {
-	a.connPool.mu.RLock()
-	defer a.connPool.mu.RUnlock()
-	for _, c := range a.connPool.conns {
-		for _, h := range []*halfconnection{&c.c2s, &c.s2c} {
-			q, s := 0, 0
-			for p := h.first; p != nil; p = p.next {
-				q++
-			}
-			for p := h.saved; p != nil; p = p.next {
-				s++
-			}
-			counters = append(counters, h.pages)
-			queued = append(queued, q)
-			saved = append(saved, s)
-		}
+// VerifHalf describes one half-connection.
+type VerifHalf struct {
+	Pages    int // halfconnection.pages
+	Queued   int // length of the list first..last
+	Saved    int // length of the list saved
+	Closed   bool
+	HasHead  bool      // first != nil
+	HeadSeen time.Time // first.seen
+	LastSeen time.Time
+}
+
+// VerifConn describes one connection of a pool.
+type VerifConn struct {
+	Stream   Stream
+	C2S, S2C VerifHalf
+}
+
+func verifHalf(h *halfconnection) VerifHalf {
+	v := VerifHalf{Pages: h.pages, Closed: h.closed, LastSeen: h.lastSeen}
+	for p := h.first; p != nil; p = p.next {
+		v.Queued++
 	}
-	return
+	for p := h.saved; p != nil; p = p.next {
+		v.Saved++
+	}
+	if h.first != nil {
+		v.HasHead, v.HeadSeen = true, h.first.seen
+	}
+	return v
+}
+
+// VerifConns returns a description of every connection in the pool (map order).
+func (p *StreamPool) VerifConns() []VerifConn {
+	p.mu.RLock()
+	defer p.mu.RUnlock()
+	out := make([]VerifConn, 0, len(p.conns))
+	for _, c := range p.conns {
+		out = append(out, VerifConn{Stream: c.c2s.stream, C2S: verifHalf(&c.c2s), S2C: verifHalf(&c.s2c)})
+	}
+	return out
 }
 
 // VerifLiveConnections returns the number of connections in the pool.
